@@ -162,6 +162,22 @@ theorem adjacent_tail_glued_across_reconnect :
         [.data (ascii "12;6;1;0;0;3"), .lost, .made, .data (ascii "0;255;3;0;14;ready\n")]).2
       = ["12;6;1;0;0;30;255;3;0;14;ready".toList] := by decide +kernel
 
+/-- … and in general: if the connection that is lost had delivered `a` (complete lines plus a
+    tail) and the next one starts with the line `p`, the first line after the reconnect is the
+    old tail followed by `p` — one line, not two, and not `p`. -/
+theorem adjacent_tail_glued_general (dec : Bytes → Str) (a p rest : Bytes) (hp : nl ∉ p) :
+    (feedEvents true dec {} [.data a, .lost, .made, .data (p ++ nl :: rest)]).2
+      = (segments a).1.map dec ++ dec ((segments a).2 ++ p) :: (segments rest).1.map dec := by
+  rw [reconnect_is_concatenation, dataReceived_eq]
+  simp only [dataOf, List.flatten_cons, List.flatten_nil, List.append_nil, List.nil_append]
+  rw [segments_append a (p ++ nl :: rest), ← List.append_assoc,
+    segments_line ((segments a).2 ++ p) rest (by
+      intro h
+      rcases List.mem_append.mp h with h | h
+      · exact segments_snd_noNl a h
+      · exact hp h)]
+  simp
+
 /-- non-vacuity: a history with two reconnects, a tail and complete lines on both sides -/
 example : (feedEvents true byteDec {} [.data [49, 10, 50], .lost, .made, .data [51, 10], .lost, .data [52]])
     = ({ buffer := [52] }, [[Char.ofNat 49], [Char.ofNat 50, Char.ofNat 51]]) := by decide +kernel
